@@ -344,7 +344,7 @@ def replay(mod, pid, path):
     _NDET = 1  # run twice, compare digests
     from vf import pool
     import sigpy  # noqa
-    tmo = float(os.environ.get("VERIF_CASE_TIMEOUT", "120"))
+    tmo = float(os.environ.get("VERIF_CASE_TIMEOUT", "900"))
     results, _ = pool.run_pool(_run_one, [body["case"]], 1, tmo)
     res = results[0]
     if res.get("harness_error"):
